@@ -2113,6 +2113,8 @@ impl ContinuityStore {
             {
                 Ok(Some(tail)) => {
                     scanned_sidecar = true;
+                    // Each scan restarts from the tail, so drop what the smaller window found.
+                    decisions.clear();
                     for event in tail.events.iter().rev() {
                         let EventKind::ContinuityContextSelectionDecided {
                             run_session_id,
